@@ -203,13 +203,16 @@ func (s *streamWriter) init() {
 // instead of sending the event itself?
 func (s *streamWriter) Shutdown() {
 	evt := actor.RemoteUnreachableEvent{ListenAddr: s.writeToAddr}
+	// Unregister before the router hears of it: once the router has forgotten
+	// this writer, the next message for the address spawns a new one under the
+	// same id, which must be free by then.
+	s.engine.Registry.Remove(s.PID())
 	s.engine.Send(s.routerPID, evt)
 	s.engine.BroadcastEvent(evt)
 	if s.stream != nil {
 		s.stream.Close()
 	}
 	s.inbox.Stop()
-	s.engine.Registry.Remove(s.PID())
 }
 
 func (s *streamWriter) Start() {
